@@ -21,6 +21,7 @@ def bottomUp (f : Expr → Option Expr) : Expr → Expr
     let e := Expr.headsRange (bottomUp f r) (bottomUp f h) fp (bottomUp f fl); (f e).getD e
   | .roots x => let e := Expr.roots (bottomUp f x); (f e).getD e
   | .forkPoint x => let e := Expr.forkPoint (bottomUp f x); (f e).getD e
+  | .mergePoint x => let e := Expr.mergePoint (bottomUp f x); (f e).getD e
   | .latest x n => let e := Expr.latest (bottomUp f x) n; (f e).getD e
   | .coalesce a b => let e := Expr.coalesce (bottomUp f a) (bottomUp f b); (f e).getD e
   | .notIn x => let e := Expr.notIn (bottomUp f x); (f e).getD e
@@ -32,6 +33,7 @@ def bottomUp (f : Expr → Option Expr) : Expr → Expr
   | .visibleHeads => (f .visibleHeads).getD .visibleHeads
   | .visibleHeadsOrReferenced => (f .visibleHeadsOrReferenced).getD .visibleHeadsOrReferenced
   | .root => (f .root).getD .root
+  | .forks => (f .forks).getD .forks
   | .commits l => (f (.commits l)).getD (.commits l)
 
 /-! ### `unfold_difference` -/
